@@ -61,7 +61,7 @@ pub fn csv_text(rows: &[GenRow]) -> String {
     s
 }
 
-pub const SEC_POOL: [&str; 8] = ["AAA", "BBB", "CCC", "DDD", "EEE", "FOO", "XYZ", "ZED"];
+pub const SEC_POOL: [&str; 12] = ["AAA", "BBB", "CCC", "DDD", "EEE", "FOO", "XYZ", "ZED", "foo", "Foo", "aaa", "Xyz"];
 /// affiliates as written in the CSV; "" is the default affiliate
 pub const AFF_POOL: [&str; 7] = ["", "Default (R)", "Spouse", "Spouse (R)", "Defaulted", "Kid", "default2 (R)"];
 
